@@ -273,6 +273,8 @@ def _run(ctx, pq):
                                 (k != "t" or (getattr(v, "tzinfo", None) is not None) == (bk[0] == 7)):
                             break
                     t = util.path_string(v)
+                    if any_time and t.lower() in ("now", "today"):      # the wall clock for a time kind (at any level: drill names are positional)
+                        t = "z"
                     pool.append(t if L.legal_text(t, True) else "z")
             pools.append(pool)
         dirs = []
